@@ -1770,7 +1770,11 @@ class Tensor:
         # We must do this here up front since we need to consume information
         # about ``self``
         self.null_grad(_clear_view_info=True)
-        if self._base is not None and not self._base._view_children:
+        if self._base is not None and not any(
+            self is t for t in _view_family(self._base)
+        ):
+            # The graph of the base was cleared since this view was created: the
+            # base no longer lists it (it may list newer views by now)
             self._base = None
 
         # The update invalidates the gradient of every tensor that shares
